@@ -28,16 +28,19 @@ type StateCtx struct {
 	State *beacon.StandardUpgradeableBeaconState
 	Epc   *common.EpochsContext
 
-	// CompensateSyncCache (default true, set by NewGenesis, inherited by copies) works
-	// around a zrnt defect: ProcessSlots passes the StandardUpgradeableBeaconState wrapper to
-	// EpochsContext.RotateEpochs, whose `state.(SyncCommitteeBeaconState)` assertion fails on
-	// the wrapper, so the epochs context never rotates its sync committees after the altair
-	// upgrade (README "zrnt oddities", TestReproStaleSyncCommitteeCache). With the flag set,
-	// every ProcessSlots/StateTransition the harness runs (Advance, PreState, Slots, Apply)
-	// gets the state wrapped in SyncFixState, which re-loads the sync committees of the
-	// epochs context from the state at every epoch start. With the flag cleared zrnt runs
-	// unmodified: honest blocks (sync aggregates are always signed by the STATE's
-	// committee) are then rejected from the second sync committee period after altair on.
+	// CompensateSyncCache (default FALSE: zrnt runs unmodified; inherited by copies) is a
+	// switch that works around a zrnt defect which has since been repaired in /repo
+	// ("fix: epochs context rotates its sync committees when the state is wrapped for fork
+	// upgrades"): before the fix ProcessSlots passed the StandardUpgradeableBeaconState
+	// wrapper to EpochsContext.RotateEpochs, whose `state.(SyncCommitteeBeaconState)`
+	// assertion failed on the wrapper, so the epochs context never rotated its sync
+	// committees after the altair upgrade. With the flag set, every ProcessSlots/
+	// StateTransition the harness runs (Advance, PreState, Slots, Apply) gets the state
+	// wrapped in SyncFixState, which re-loads the sync committees of the epochs context
+	// from the state at every epoch start - useful only to keep chains going on a tree
+	// that has the defect. Sync aggregates are always signed by the STATE's committee, so
+	// on a defective tree without the flag honest blocks are rejected from the third sync
+	// committee period after altair on (TestReproHonestSyncAggregateRejected).
 	CompensateSyncCache bool
 }
 
